@@ -935,7 +935,7 @@ def judge_case(ctx, c, line, o, po, mres, allres, st):
         if cuts: st('poly:with_cut')
         if any(len(rs) > 1 for rs in polys): st('poly:with_hole')
         ctx.count(line, bool(polys) and (bool(dang) or bool(cuts) or len(polys) > 1))
-        names = ['input-noded-no-duplicates', 'polygon-valid', 'edge-once-per-side', 'polygon-edges-are-input-edges', 'edge-accounting', 'dangles-are-the-pruned-edges', 'cut-edges-are-the-bridges']
+        names = ['input-noded-no-duplicates', 'polygon-valid', 'edge-once-per-side', 'polygon-edges-are-input-edges', 'edge-accounting', 'dangles-are-the-pruned-edges', 'cut-edges-are-the-bridges', 'polygon-interiors-disjoint']
         if bits[0] != '1':
             st('poly:input-rejected')
         else:
